@@ -63,6 +63,9 @@ func clauseTags(c *Contract) map[string]bool {
 			tags[t] = true
 		}
 	}
+	if c.Refines != "" {
+		tags["C18"] = true
+	}
 	tags["C13"] = true // every function under contract takes part in the safety sweep
 	return tags
 }
